@@ -216,12 +216,16 @@ def part_stats(args, wd, viol, stats):
             ResourceMonitor.get_network_stats = sampler("network")
             with_proc = rng.random() < 0.4
             pseq = {}
+            win = {}
             if with_proc:
                 for pname in ("jobA", "jobB")[: rng.randint(1, 2)]:
                     pseq[pname] = {"rss": gen_seq(rng)[1], "cpu_percent": gen_seq(rng)[1]}
                     for sn in pseq[pname]:
                         v = pseq[pname][sn]
                         pseq[pname][sn] = (v * (n // len(v) + 1))[:n]
+                    # a job runs during part of the batch only: it is sampled in the intervals of its own lifetime
+                    a = rng.randint(0, n - 1) if rng.random() < 0.6 else 0
+                    win[pname] = (a, rng.randint(a + 1, n) if rng.random() < 0.6 else n)
 
                 def proc(self, pid, include_children=True, recurse_children=False):
                     name = {101: "jobA", 102: "jobB"}[pid]
@@ -231,7 +235,7 @@ def part_stats(args, wd, viol, stats):
             agg = ResourceMonitorAggregator("batch_x", ResourceMonitorStats(cpu=use["cpu"], memory=use["memory"], disk=use["disk"], network=use["network"], process=with_proc))
             for i in range(n):
                 pos["i"] = i
-                agg.update_resource_stats(ids={p: {"jobA": 101, "jobB": 102}[p] for p in pseq})
+                agg.update_resource_stats(ids={p: {"jobA": 101, "jobB": 102}[p] for p in pseq if win[p][0] <= i < win[p][1]})
             agg.finalize(out)
             files = os.listdir(os.path.join(out, "stats"))
             if len(files) != 1:
@@ -271,10 +275,13 @@ def part_stats(args, wd, viol, stats):
                 if d is None:
                     viol("process-summary-missing", f"no summary for process {pname}")
                     continue
-                if d.get("samples") != n:
-                    viol("process-sample-count", f"{pname}: samples={d.get('samples')} of {n}")
+                a, b = win[pname]
+                if d.get("samples") != b - a:
+                    viol("process-sample-count", f"{pname}: samples={d.get('samples')}, it was sampled in {b - a} of the batch's {n} intervals")
+                if b - a < n:
+                    stats["processes_alive_in_part_of_the_batch"] = stats.get("processes_alive_in_part_of_the_batch", 0) + 1
                 for sn, v in sd.items():
-                    check(f"process {pname}", v, d, sn)
+                    check(f"process {pname} (alive in intervals {a}..{b - 1} of {n})", v[a:b], d, sn)
             if len(stats["samples"]) < 2:
                 (res, sn), v = next(iter(seqs.items()))
                 stats["samples"].append({"part": "stats", "statistic": f"{res}.{sn}", "kind": kinds[(res, sn)], "samples": [round(x, 3) for x in v[:10]], "n": len(v)})
